@@ -26,7 +26,7 @@ SEARCH_CAP = 200
 RULE = ('a case = one dataset built with the real kapture classes and written by kapture_to_dir: 1..3 cameras of random COLMAP '
         'models (integral image size, parameters from {integers, decimals, tiny, negative, -0.0}) plus optionally an unused camera '
         'and a lidar; 1..7 images whose names are drawn so that the id order (timestamp, sensor) differs from the lexical order '
-        '(sub-folders, upper case, non-ASCII, an interior blank), several images per camera; rigs: none / flat / nested to depth '
+        '(sub-folders, upper case, non-ASCII, an interior blank, two or three blanks in a row, a tab, two names that differ only by the number of blanks), several images per camera; rigs: none / flat / nested to depth '
         '2..3 / present without any trajectory; trajectories: none / some images unposed / all posed, unit, non-unit and '
         'near-180-degree quaternions, translations to 1e5; one keypoints type with 2, 4 or 6 float32 columns (0..5 rows, half-pixel '
         'values), uint8 descriptors, matches on a random subset of pairs incl. index 2^32-1, 0..14 points with 3 or 6 columns, '
@@ -38,11 +38,15 @@ RULE = ('a case = one dataset built with the real kapture classes and written by
         'ones; a fourth stream RE-USES the export target (same database path and reconstruction directory, force overwrite) for a rich dataset '
         'followed by one lacking points+observations / trajectories / keypoints / matches / descriptors; '
         'every call is judged by the oracle for its options and compared with the model of that call alone. Every case also feeds 12 random (a, b) with 0 <= a, b < MAX_IMAGE_ID through the real '
-        'image_ids_to_pair_id / pair_id_to_image_ids. Non-trivial = in-range dataset with at least two images and at least one '
+        'image_ids_to_pair_id / pair_id_to_image_ids, and gives 2 images.txt FILES (1..4 images each) to the real import_from_colmap_images_txt: one written the way the exporter '
+        'writes (single blanks; names with blanks in a row, tabs, \\x1c, a leading #, digits only), judged by the oracle (names / ids / poses read back = written), and one free-form '
+        '(runs of blanks, commas and tabs between the fields, blanks before the first field and after the name, commas inside names, header present or not, last empty line missing; '
+        '1 in 5: a line with fewer than 9 fields -> must raise), compared with MColmap.parse_images_txt inside Coq. Non-trivial = in-range dataset with at least two images and at least one '
         'of {pose, keypoints, matches, points}; distinct = distinct dataset content.')
 TRUSTED = ['sqlite3 and the numpy blobs (float64 / float32 / uint8 / uint32 arrays are modelled as lists of exact numbers)',
            'CPython float printing and parsing in cameras.txt / images.txt / points3D.txt: contract read (show x) = x (Section hypothesis)',
-           'the lexing of the text files: fields are modelled as records; image names are assumed free of commas and of blanks other than single interior spaces',
+           'the lexing of cameras.txt and points3D.txt (numbers only): fields are modelled as records; images.txt IS modelled at character level (ASCII blanks and commas; '
+           'the non-ASCII blanks of Python \\s, U+0085 / U+00A0 / U+2000.., are outside the model and never generated)',
            'get_camera_kapture_id_from_colmap_id is assumed injective (checked on a sample of ids inside Coq)',
            'kapture_to_dir / kapture_from_dir: the dataset export_colmap loads is read by the harness with the same kapture_from_dir and taken as the input',
            'COLMAP num_params per camera model: reference constants in harness/tables/colmap.py',
@@ -52,6 +56,8 @@ ASSUMPTIONS = ['a database-only import gives an image without pose the all-zero 
                'matches are stored in lexical order of the two image names (kapture_format.adoc); other layouts are outside the model',
                'poses are full (rotation and translation); partial poses are outside COLMAP\'s range and are not generated',
                'colours of 3-D points are compared only when they are integers (COLMAP stores bytes); an XYZ-only cloud comes back with black points',
+               'an image name is any string kapture\'s csv files can hold (no comma, no blank at either end): names with several blanks in a row or tabs are inside the judged range; '
+               'the unrepaired importer squeezed them to single blanks',
                'an observation in an image without pose is inside the judged range (the statement lists no such exclusion): the unrepaired importer returns the image name "unknown"']
 EXHAUSTIVE = {'quick': False, 'thorough': False}
 NOTES = []
@@ -60,7 +66,8 @@ KP, DS = 'kpt', 'dsc'
 MODELS = [('SIMPLE_PINHOLE', 3), ('PINHOLE', 4), ('SIMPLE_RADIAL', 4), ('RADIAL', 5), ('OPENCV', 8), ('OPENCV_FISHEYE', 8),
           ('FULL_OPENCV', 12), ('FOV', 5), ('SIMPLE_RADIAL_FISHEYE', 4), ('RADIAL_FISHEYE', 5), ('THIN_PRISM_FISHEYE', 12)]
 NAME_POOL = ['z/last.jpg', 'a/first.jpg', 'm.jpg', 'B.png', 'b.png', 'a.jpg', 'a/a.jpg', 'cam1/000010.jpg', 'cam1/000002.jpg',
-             'cam0/000010.jpg', 'Z.JPG', 'img 01.jpg', 'été.jpg', '0.jpg', '10.jpg', '9.jpg', 'zz/zz/z.jpg', 'a.jpg.png']
+             'cam0/000010.jpg', 'Z.JPG', 'img 01.jpg', 'été.jpg', '0.jpg', '10.jpg', '9.jpg', 'zz/zz/z.jpg', 'a.jpg.png',
+             'img  02.jpg', 'two  blanks/b   3.jpg', 'tab\there.jpg', 'a x.jpg', 'a  x.jpg']
 
 
 # ------------------------------------------------------------------------------------------ generation
@@ -325,7 +332,45 @@ def gen_cases(rng, tier):
     for c in cases:
         c['pairs'] = [[rng.choice([rng.randrange(m), rng.randrange(10), m - 1 - rng.randrange(3)]),
                        rng.choice([rng.randrange(m), rng.randrange(10), m - 1 - rng.randrange(3)])] for _ in range(12)]
+        c['txt'] = [_gen_images_txt(rng, 'canon'), _gen_images_txt(rng, rng.choice(['free', 'free', 'free', 'canon', 'short']))]
     return cases
+
+
+# images.txt files for the lexing model (MColmap.parse_images_txt): names kapture can hold, incl. blanks in a row and tabs
+LINE_NAMES = ['a.jpg', 'img 01.jpg', 'a  x.jpg', 'two  blanks/b   3.jpg', 'tab\there.jpg', 'été  1.jpg', 'dir/sub dir/i.png',
+              '#hash.jpg', '12', '1.5 2.5', 'a\t \tb.jpg', 'x \x1c y.jpg']
+LINE_NAMES_FREE = LINE_NAMES + ['c,d.jpg', 'x , y.jpg', 'e,,f  g.jpg']
+LINE_FLOATS = [0.5, -0.5, 1.0, 0.0, -0.0, 1e-05, -2.25, 3.0, 123456.789, 0.1, 1e+22, -7.0, 0.7071067811865476]
+
+
+def _gen_images_txt(rng, kind):
+    """kind: 'canon' = as export_to_colmap_images_txt writes (single blanks), 'free' = any runs of blanks and commas
+    between the fields, blanks before the first field and after the name, 'short' = one line has fewer than 9 fields"""
+    recs = []
+    for _ in range(rng.randint(1, 4)):
+        fields = ([str(rng.choice([1, 2, 3, 7, 10, 99, 2147483646]))] + [repr(rng.choice(LINE_FLOATS)) for _ in range(7)]
+                  + [str(rng.choice([1, 2, 3, 12, 100000]))])
+        name = rng.choice(LINE_NAMES if kind == 'canon' else LINE_NAMES_FREE)
+        second = rng.choice(['', '', '1.5 2.5 -1', '1.5 2.5 -1 3.0 4.0 0'])
+        recs.append([fields, name, second])
+    # distinct ids: images[timestamp, camera] would overwrite
+    seen = set()
+    recs = [r for r in recs if not (r[0][0] in seen or seen.add(r[0][0]))]
+    lines = ['# Image list with two lines of data per image:', '#   IMAGE_ID, QW, QX, QY, QZ, TX, TY, TZ, CAMERA_ID, NAME',
+             '#   POINTS2D[] as (X, Y, POINT3D_ID)', '# NB IMAGES : %d' % len(recs)][:rng.choice([4, 4, 0, 1])]
+    bad = rng.randrange(len(recs)) if kind == 'short' else None
+    for i, (fields, name, second) in enumerate(recs):
+        if kind == 'canon':
+            line = ' '.join(fields + [name])
+        else:
+            seps = [rng.choice([' ', ' ', '  ', ', ', ',', '\t', ' , ', ' \t ']) for _ in range(9)]
+            fs = fields[:rng.choice([0, 1, 4, 8])] if i == bad else fields
+            line = rng.choice(['', '', ' ', '\t', ', ']) + ''.join(f + sp for f, sp in zip(fs, seps))
+            line = (line.rstrip(', \t') if i == bad else line + name) + rng.choice(['', '', ' ', '  ', '\t'])
+        lines += [line, second]
+    if rng.random() < 0.2 and lines and lines[-1] == '':
+        lines.pop()                                   # the last image without its (empty) second line
+    return {'kind': kind, 'lines': lines, 'recs': [[f, n] for f, n, _ in recs]}
 
 
 def _max_image_id():
@@ -485,6 +530,29 @@ def _run_history(steps, base, shared_target=False):
             shutil.rmtree(target, ignore_errors=True)
 
 
+def _read_images_txt(lines, fpath):
+    """the real import_from_colmap_images_txt on a file with these lines; what it read, re-printed canonically:
+    [[id, qw, qx, qy, qz, tx, ty, tz, camera id], name] per image, or None when it raised"""
+    import re
+    import kapture
+    from kapture.converter.colmap.import_colmap_reconstruction import import_from_colmap_images_txt
+    with open(fpath, 'w', encoding='utf-8', newline='\n') as f:
+        f.write(''.join(line + '\n' for line in lines))
+    try:
+        images, trajectories, _ = import_from_colmap_images_txt(fpath)
+    except (IndexError, ValueError, KeyError, AssertionError, TypeError) as e:
+        return {'raised': type(e).__name__, 'recs': None}
+    finally:
+        os.remove(fpath)
+    recs = []
+    for ts, cam, name in kapture.flatten(images):
+        pose = trajectories[ts, cam]
+        camid = re.search(r'(\d+)$', cam)
+        recs.append([[str(int(ts))] + [repr(float(v)) for v in list(pose.r_raw) + list(pose.t_raw)]
+                     + [str(int(camid.group(1))) if camid else cam], name])
+    return {'raised': None, 'recs': recs}
+
+
 def run_impl(case, ctx):
     import kapture.converter.colmap.database as cdb
     base = os.path.join(ctx['tmp'], 'c')
@@ -509,6 +577,7 @@ def run_impl(case, ctx):
             pid = cdb.image_ids_to_pair_id(a, b)
             x, y = cdb.pair_id_to_image_ids(pid)
             obs['pairs'].append([int(a), int(b), int(pid), int(x), int(y)])
+        obs['txt'] = [_read_images_txt(t['lines'], os.path.join(base, 'images.txt')) for t in case.get('txt', [])]
         return obs
     finally:
         shutil.rmtree(base, ignore_errors=True)
@@ -687,6 +756,15 @@ def _oracle_step(obs):
 def oracle(case, obs):
     """export then import gives back, by image name, the same cameras, poses, features, matches, points and observations --
     for every call of a history, whatever was imported before in the same process."""
+    # the text the exporter writes for an image is read back with the same image name (any name kapture can hold)
+    for t, o in zip(case.get('txt', []), obs.get('txt', [])):
+        if t['kind'] == 'canon':
+            if o['recs'] is None:
+                return 'an images.txt as export writes it is not read back (%s)' % o['raised']
+            if sorted(n for _, n in o['recs']) != sorted(n for _, n in t['recs']):
+                return 'image names read back from images.txt differ from the names written'
+            if sorted(map(tuple, (f for f, _ in o['recs']))) != sorted(map(tuple, (f for f, _ in t['recs']))):
+                return 'ids / poses read back from images.txt differ from what was written'
     if not case.get('in_range'):
         return None
     for k, st in enumerate(obs['steps']):
@@ -767,7 +845,11 @@ def _cstep(st):
 
 def encode(case, obs):
     pairs = kv.clist(kv.cpair(*(kv.cz(v) for v in t)) for t in obs['pairs'])
-    return '(mkCase %s %s)' % (kv.clist(_cstep(st) for st in obs['steps']), pairs)
+    txt = kv.clist(kv.cpair(kv.clist(kv.cstr(line) for line in t['lines']),
+                            kv.copt(None if o['recs'] is None else
+                                    kv.clist(kv.cpair(kv.clist(kv.cstr(x) for x in f), kv.cstr(n)) for f, n in o['recs'])))
+                   for t, o in zip(case.get('txt', []), obs.get('txt', [])))
+    return '(mkCase %s %s %s)' % (kv.clist(_cstep(st) for st in obs['steps']), pairs, txt)
 
 
 # ------------------------------------------------------------------------------------------ evidence helpers
@@ -783,10 +865,11 @@ def nontrivial(case, obs):
 def classify(case, obs):
     d = _datasets(case)[-1]
     n = len(d['images'])
-    return '%s/%s/img=%s/%s%s%s%s' % (case.get('tag', '?'), '+'.join(st['class'] for st in obs['steps']),
+    txt = '+'.join(t['kind'] + ('!' if o['recs'] is None else '') for t, o in zip(case.get('txt', []), obs.get('txt', [])))
+    return '%s/%s/img=%s/%s%s%s%s/txt=%s' % (case.get('tag', '?'), '+'.join(st['class'] for st in obs['steps']),
                                       '1' if n == 1 else ('2-3' if n <= 3 else '4+'),
                                       'T' if d['traj'] else '-', 'K' if d['kp'] else '-',
-                                      'M' if d['matches'] else '-', 'P' if d['points'] else '-')
+                                      'M' if d['matches'] else '-', 'P' if d['points'] else '-', txt or '-')
 
 
 def describe(case, obs):
@@ -866,8 +949,10 @@ LEVEL_TEXT = ('Theorems in coq/Props/C13.v hold for every dataset inside COLMAP\
               'column swap is involutive; the camera-model table is a bijection with parameter counts 2 + COLMAP\'s. The model is tied to '
               'the code by running export_colmap + import_colmap on generated datasets and comparing the re-imported dataset inside Coq, '
               'single round trips as well as histories of 2-3 round trips with different import options made in one process (the model of a '
-              'call depends on that call only: C13_history_independent).')
-LEVEL_NOTE = ('partial: SQLite, numpy blobs, text lexing, float printing/parsing (contract read(show x)=x) and the quaternion library are '
+              'call depends on that call only: C13_history_independent). The text of images.txt is modelled at character level: for every nine clean fields and every '
+              'image name kapture can hold (blanks in a row, tabs, commas inside) the line / the file the exporter writes is read back as exactly these fields and this name '
+              '(C13_image_line_roundtrip, C13_images_txt_roundtrip, C13_exported_images_txt_parses), compared with the real import_from_colmap_images_txt on generated files.')
+LEVEL_NOTE = ('partial: SQLite, numpy blobs, the lexing of cameras.txt / points3D.txt, float printing/parsing (contract read(show x)=x) and the quaternion library are '
               'trusted and only exercised; rig flattening is Model/MRigs.remove_inplace, whose characterisation (world pose = composition '
               'along the rig chain) is property C06; float rounding of the rig composition is compared within 1e-9.')
 
